@@ -928,7 +928,30 @@ impl<'a> ProgGen<'a> {
             40 => format!("{lit} | walk(if type == \"array\" then sort else . end), walk({e})"),
             41 => "env | length, ($ENV | type), input_line_number, $__loc__, ([inputs] | length)".into(),
             42 => format!("[limit(0; {g})], first(empty), [nth(0; empty)], (0 | until(. >= 3; . + 1))"),
-            43 => format!("{lit} | [.. | numbers], [.. | strings], [recurse(.[]?; . != null)] | length"),
+            43 => {
+                if self.rng.chance(1, 3) {
+                    return format!("{lit} | [.. | numbers], [.. | strings], [recurse(.[]?; . != null)] | length");
+                }
+                // path-context builtins (key / parent / path) inside collectors and interpolations,
+                // over documents whose fields are null, missing or nested
+                let doc = *self.rng.pick(&[
+                    "{\"a\":null}", "{\"a\":{\"b\":null}}", "[null,{\"a\":null}]", "{\"a\":[null]}", "null", "{\"a\":{\"b\":1}}", "{\"a\":{}}", "[[1,[2]],{\"a\":[3]}]",
+                    "{\"a\":{\"b\":{\"c\":null}},\"k\":[null,null]}",
+                ]);
+                let step = |g: &mut Self| -> &'static str { *g.rng.pick(&[".a", ".b", ".[0]", ".[]", ".a.b", ".c", ".k", ".[1]", ".a?", ".[]?", "..", ".a[0]"]) };
+                let (p1, p2, p3) = (step(self), step(self), step(self));
+                let ctx = *self.rng.pick(&["key", "parent", "parent(1)", "parent(2)", "path", "(path | length)", "(parent | key)", "[key, (parent | type)]"]);
+                match self.rng.below(8) {
+                    0 => format!("{doc} | {p1} | [{p2} | {ctx}]"),
+                    1 => format!("{doc} | {p1} | \"\\({p2})-\\({ctx})\""),
+                    2 => format!("{doc} | [{p1} | {p2} | {ctx}]"),
+                    3 => format!("{doc} | {p1} | {{({p2} | {ctx} | tostring): {p3}}}"),
+                    4 => format!("{doc} | [.. | {ctx}?]"),
+                    5 => format!("{doc} | {p1} | [({p2}, {p3}) | {ctx}]"),
+                    6 => format!("{doc} | {p1} | \"\\({p2} | {ctx})\", [{p3} | {ctx}]"),
+                    _ => format!("{doc} | [paths] | map(length), ({doc} | {p1} | {p2} | {ctx})"),
+                }
+            }
             44 => format!("{lit} | pick({p}), (to_entries | from_entries), (keys, values | length)"),
             _ => format!("{het} | [.[] | tojson], (. - [nan]), (. + .), (. | add), any, all, flatten, (map(length?) | add)"),
         }
